@@ -290,7 +290,7 @@ func (ch *channel) ReceiveWait() <-chan struct{} {
 
 // Free closes the channel and releases its resources.
 func (ch *channel) Free() {
-	verifpoint.Point("ch.Free", verifpoint.Ptr(ch), 0, 0)
+	verifpoint.Point("ch.Free", verifpoint.Addr(ch), 0, 0)
 	ok := ch.freed.CompareAndSwap(false, true)
 	if !ok {
 		panic("free called multiple times")
@@ -304,7 +304,7 @@ func (ch *channel) Free() {
 
 // receive is called by the connection to receive a message.
 func (ch *channel) receive(msg pmpx.Message) status.Status {
-	verifpoint.Point("ch.receive", verifpoint.Ptr(ch), int64(ch.refs.Load()), 0)
+	verifpoint.Point("ch.receive", verifpoint.Addr(ch), int64(ch.refs.Load()), 0)
 	// The channel can be freed concurrently (user Free, handler exit, sent close),
 	// after the connection has looked it up. Messages for a freed channel are dropped.
 	s, ok := ch.tryAcquire()
@@ -324,7 +324,7 @@ func (ch *channel) receive(msg pmpx.Message) status.Status {
 
 // free is called by the connection to free the channel.
 func (ch *channel) free() {
-	verifpoint.Point("ch.free", verifpoint.Ptr(ch), int64(ch.refs.Load()), 0)
+	verifpoint.Point("ch.free", verifpoint.Addr(ch), int64(ch.refs.Load()), 0)
 	// The connection can free a channel from several places concurrently
 	// (sent/received close, closeChannels, failed createChannel).
 	if !ch.connFreed.CompareAndSwap(false, true) {
@@ -344,7 +344,7 @@ func (ch *channel) free() {
 
 // acquire increments the refcounter and returns the channel state, panics if freed.
 func (ch *channel) acquire() *channelState {
-	verifpoint.Point("ch.acquire", verifpoint.Ptr(ch), int64(ch.refs.Load()), 0)
+	verifpoint.Point("ch.acquire", verifpoint.Addr(ch), int64(ch.refs.Load()), 0)
 	refs := ch.refs.Add(1)
 	if refs == 1 {
 		panic("acquire of freed channel")
@@ -380,7 +380,7 @@ func (ch *channel) tryAcquire() (*channelState, bool) {
 // release decrements the internal refs counter.
 func (ch *channel) release() {
 	refs := ch.refs.Add(-1)
-	verifpoint.Point("ch.release", verifpoint.Ptr(ch), int64(refs), 0)
+	verifpoint.Point("ch.release", verifpoint.Addr(ch), int64(refs), 0)
 	if refs > 0 {
 		return
 	}
